@@ -115,7 +115,7 @@ def run_history(kind, hist, scratch, counters):
 
     built = cachecfg.build(kind, scratch)
     cache = built.cache
-    conditional = kind.startswith("memory.if_") and "+" not in kind
+    conditional = ".if_" in kind and "+" not in kind
     model = {}      # key -> ("data", v) | ("meta",) | ("maybe", [values]) ; absent = missing
     marks = []      # every marker string ever handed to the cache
     universe = sorted(set(h["key"] for h in hist if h["key"]))
